@@ -375,7 +375,7 @@ type frec struct {
 	Digest string
 }
 
-var dfaultCompared, dfaultFlushFails int
+var dfaultCompared, dfaultFlushFails, readFaultsCompared int
 
 // DFModelMismatch runs DFaultRun.dfrun (DStore with failing Flush calls, DiskFault.flush_fault) on the
 // recorded calls and compares every observation and, after every failed or completed Flush, FlushRevert and
